@@ -74,7 +74,7 @@ def gen_case(rng, spec):
         "R": R,
         "maxlen": maxlen,
         "perm": rng.randrange(1 << 30) if rng.random() < 0.5 else None,
-        "rename": rng.choice([None, None, "int", "str", "tuple"]),
+        "rename": rng.choice([None, None, "int", "str", "tuple", "int0", "tuple0"]),
     }
 
 
